@@ -53,6 +53,7 @@ type group struct {
 	sinks     []sinkReader
 	secondary bool             // an additional sink nobody promised (e.g. stderr copy of NewFileLogger): multiplicity is calibrated only
 	from      func(p int) bool // nil: every producer's messages are expected; else only those of producers p with from(p) — the others must be ABSENT (this sink is not a member of the composite they log through)
+	unjudged  bool             // a member with scripted transient failures: nothing is demanded of what it holds
 	appendBit int              // -1: present from the start; k: appended while running, completeness judged only for messages begun after Append returned
 }
 
@@ -261,6 +262,21 @@ func (c Case) build() (*built, error) {
 		b.groups = []*group{
 			{name: "writer0", sinks: []sinkReader{recReader("writer0", s1)}, appendBit: -1},
 			{name: "writer1", sinks: []sinkReader{recReader("writer1", s2)}, appendBit: -1},
+		}
+	case "json-multiwriter-faulty-first":
+		// the first writer of the compound writer has transient trouble (an error or a short write every 5th call): the
+		// healthy writers behind it still receive every message
+		s1, s2, s3 := &recSink{failEvery: 5}, &recSink{}, &recSink{}
+		var w *logs.MultipleWritersWithSource
+		w, err = logs.NewMultipleWritersWithSource(s1, s2, s3)
+		if err != nil {
+			break
+		}
+		b.lg, err = logs.NewJSONLogger(w, "lsrc", "src")
+		b.groups = []*group{
+			{name: "writer0(faulty)", sinks: []sinkReader{recReader("writer0", s1)}, appendBit: -1, unjudged: true},
+			{name: "writer1", sinks: []sinkReader{recReader("writer1", s2)}, appendBit: -1},
+			{name: "writer2", sinks: []sinkReader{recReader("writer2", s3)}, appendBit: -1},
 		}
 	case "json-std":
 		b.lg, err = logs.NewJSONLogger(&logs.StdWriter{}, "lsrc", "src")
